@@ -39,6 +39,7 @@ CONFIG = {
                    'alphabet has no path quantifier) and bare CTL path '
                    'formulas.'),
     'deciding': ['c05.restricted', 'c05.lnot'],
+    'internal_monitors': [],
     'shards': {'quick': 16, 'thorough': 16},
     'hashseeds': {'quick': 2, 'thorough': 2},
     'min_evals': {'quick': {'c05.restricted': 8000, 'c05.lnot': 10000},
@@ -46,7 +47,7 @@ CONFIG = {
     'must_sig': ['logic:CTL', 'logic:LTL', 'logic:CTLS', 'root:A.R', 'root:E.R',
                  'root:A.U', 'root:R', 'root:G', 'root:imply', 'root:and',
                  'lnot:stripped', 'lnot:wrapped', 'kind:state', 'kind:path',
-                 'family:temporal_chains',
+                 'family:temporal_chains', 'shared_subobject',
                  'kind:quantified_path',
                  'site:pyModelChecking.CTL.model_checking:*',
                  'site:pyModelChecking.LTL.model_checking:*'],
@@ -291,9 +292,39 @@ def drive(logic, t, i):
         LOG.counters['c05.unbuildable'] += 1
         return
     try:
-        f.get_equivalent_restricted_formula()
+        before = tree_of(f)
+        r1 = f.get_equivalent_restricted_formula()
+        r2 = f.get_equivalent_restricted_formula()
+        LOG.hit('c05.repeatable')
+        if tree_of(f) != before:
+            LOG.violation('c05.restricted', PROP,
+                          {'logic': logic, 'formula': t, 'shown': show(t)},
+                          show(tree_of(f)), show(before),
+                          note='get_equivalent_restricted_formula modified '
+                               'its receiver')
+        elif tree_of(r1) != tree_of(r2):
+            LOG.violation('c05.restricted', PROP,
+                          {'logic': logic, 'formula': t, 'shown': show(t)},
+                          show(tree_of(r2)), show(tree_of(r1)),
+                          note='a second rewrite of the same object gives '
+                               'another result')
     except Exception:
         pass
+    if i % 4 == 0 and t[0] not in ('ap', 'bool'):
+        # the SAME Python object used twice as an operand
+        try:
+            shared = [('and', 2), ('or', 3), ('imply', 2)]
+            if logic in ('LTL', 'CTLS'):
+                shared += [('U', 2), ('R', 2)]
+            op, k = shared[(i // 4) % len(shared)]
+            from ..neutral import CLS
+            g = getattr(L, CLS[op])(*([f] * k)) if op != 'imply' else \
+                L.Imply(f, L.Not(f))
+            LOG.sig['shared_subobject'] += 1
+            g.get_equivalent_restricted_formula()
+            L.LNot(g)
+        except Exception:
+            pass
     try:
         L.LNot(f)
         if i % 3 == 0:
